@@ -113,6 +113,9 @@ func checkCase(c Case, tol pgen.Tol) (f *evid.Failure, tolerated map[string]int)
 		if r.TolBool > 0 {
 			tolerated[pgen.ClassBoolWZ] += r.TolBool
 		}
+		if r.TolNilBool > 0 {
+			tolerated[pgen.ClassNilBoolPtr] += r.TolNilBool
+		}
 		return nil
 	}
 
@@ -163,7 +166,8 @@ func hexTrunc(b []byte) string {
 // ---------------------------------------------------------------- known classes
 
 func activeTol() pgen.Tol {
-	return pgen.Tol{PtrEmpty: evid.KnownActive(pgen.ClassPtrEmpty), BoolWZ: evid.KnownActive(pgen.ClassBoolWZ)}
+	return pgen.Tol{PtrEmpty: evid.KnownActive(pgen.ClassPtrEmpty), BoolWZ: evid.KnownActive(pgen.ClassBoolWZ),
+		NilBoolPtr: evid.KnownActive(pgen.ClassNilBoolPtr)}
 }
 
 // activePreClass names the listed class of a case whose trigger condition
@@ -678,6 +682,8 @@ func witnessCases() map[string]Case {
 		pgen.ClassRepOver10: {Type: st(fld(slc(lf(pgen.KInt32)))), Value: rs(pgen.Recipe{E: ints})},
 		// struct{A []bool}{[false]} comes back [true]
 		pgen.ClassBoolWZ: {Type: st(fld(slc(lf(pgen.KBool)))), Value: rs(rs(ru(0)))},
+		// struct{A int; P *bool}{1, nil} comes back as {1, &false}
+		pgen.ClassNilBoolPtr: {Type: st(fld(lf(pgen.KInt)), fld(pt(lf(pgen.KBool)))), Value: rs(ru(1), pgen.Recipe{Nil: true})},
 		// struct{R RawMessage; A int}{R: {8,1}, A: 7}: A is lost
 		pgen.ClassImplNotLast: {Type: st(fld(nm("RawMessage")), fld(lf(pgen.KInt))), Value: rs(pgen.Recipe{B: []byte{8, 1}}, ru(7))},
 		// struct{A int; M *Msg}{1, &Msg{X: 5}}: Marshal panics
